@@ -46,10 +46,11 @@ func nameConforms(c *Ctx, pa *provAnalysis, format string, v ssa.Value) (bool, s
 }
 
 func checkC04(c *Ctx, r *Report) {
-	r.Rules = []string{"O3 member order and names (deb ar, ipk, apk segments and cut/full kinds, archlinux)", "D4 deb compression name -> constructor -> member suffix", "F10 every tar member name is relative by construction", "O4 nested archives are completed before they are read (shared with C06-E2/E2m)", "uniqueness / parents-before-children inherited from the plan (shared with C05)", "F10-size header-only members carry size zero", "O3-align apk segments end on a 512-byte boundary without a whole zero block", "mtree-F8 .PKGINFO first in .MTREE (imported from C03)", "apk-F12-apk segment order by buffer identity (imported from C10)", "fresh-G4 archives start in fresh buffers (imported from C11)", "O3-all every return that can report success follows all mandatory members (deb, ipk)", "F10-rpm names handed to rpmpack are normalised at their last definition"}
+	r.Rules = []string{"O3 member order and names (deb ar, ipk, apk segments and cut/full kinds, archlinux)", "D4 deb compression name -> constructor -> member suffix", "F10 every tar member name is relative by construction", "O4 nested archives are completed before they are read (shared with C06-E2/E2m)", "uniqueness / parents-before-children inherited from the plan (shared with C05)", "F10-size header-only members carry size zero", "O3-align apk segments end on a 512-byte boundary without a whole zero block", "mtree-F8 .PKGINFO first in .MTREE (imported from C03)", "apk-F12-apk segment order by buffer identity (imported from C10)", "fresh-G4 archives start in fresh buffers (imported from C11)", "O3-all every return that can report success follows all mandatory members (deb, ipk)", "F10-rpm names handed to rpmpack are normalised at their last definition", "O4-once a buffer holding a finished part is read by one consumer on any path", "plan-K2c (imported from C05)"}
 	r.Explanation = "Structural necessary conditions of well-formedness decided from source. (O3) deb: the ar global header is written before any member and the members are debian-binary (constant body \"2.0\\n\"), control.tar.gz, the data member, then the optional signature, in that order on every path; ipk: ./debian-binary, ./control.tar.gz, ./data.tar.gz in that order through the './'-prefixing helper; apk: the data segment is written as a complete tar (the kind constant for which the writer flushes after closing the tar), control and signature as cut tars, the buffered writer is large enough to hold back the end-of-archive marker (>= 1024), Flush precedes the tar Close, and .PKGINFO is the first entry of the control segment; archlinux: .INSTALL is written only when at least one script is configured. (D4) the deb compression setting is evaluated for every accepted name and for an unknown one: exactly one compressor constructor is live and the member name carries the matching suffix; an unknown name is an error. (F10) for every tar header created on a packaging path, every definition of Name that can reach the point where the header is written (flow-sensitive reaching stores) is a relative constant, is built from constants, or passes the format's relative-name helper; a header made by tar.FileInfoHeader keeps its source-path name unless overwritten on every path. (O4) every tar/compressor layered over a buffer is closed before the buffer is read. Uniqueness of names and parents-before-children follow from the plan rules of C05, which are re-evaluated here. Acceptance by dpkg/rpm/apk/pacman and rpm's internal layout are not decided."
 	r.Explanation += " (F10-size) per header, over the combinations of Typeflag and Size definitions that can hold together at a use, a header-only class never meets a size other than the constant zero. (O3-align) the hand-written padding of apk segments, evaluated in an affine domain for every residue of the byte counter modulo 512, satisfies 0 <= pad < 512 and (counter+pad) mod 512 = 0. Imported: .PKGINFO first in .MTREE (C03 F8), apk segment order by buffer identity (C10 F12-apk), fresh output buffers (C11 G4), and the planner's path discipline (C05 G-*, O5-parents-clean)."
 	r.Explanation += " (O3-all) in deb's Package and ipk's outer writer every return whose error is not provably non-nil is dominated by the writes of all mandatory members. (F10-rpm) every definition of a file record's Name that reaches rpmpack's AddFile is the result of files.ToNixPath (or a clean absolute constant), and one such definition dominates the call."
+	r.Explanation += " (O4-once) every local bytes.Buffer of a packager that is read (as io.Reader argument, element of a reader list, Read/WriteTo/Next, or by a module function that reads its parameter) has no two readers on one path."
 	r.Assumptions = []string{
 		"archive/tar, blakesmith/ar, pgzip, zstd, xz and rpmpack produce well-formed containers for well-formed input",
 		"files.AsRelativePath / AsExplicitRelativePath return clean relative paths (their string semantics are not analysed)",
@@ -235,6 +236,7 @@ func checkC04(c *Ctx, r *Report) {
 
 	checkAPKStructure(c, r)
 	checkRPMNames(c, r)
+	checkBuffersReadOnce(c, r)
 
 	// ---- O3 archlinux: .INSTALL only with scripts ----
 	if pk := c.PackagerByFormat("archlinux"); pk != nil {
@@ -393,7 +395,7 @@ func checkC04(c *Ctx, r *Report) {
 	n5 := 0
 	for _, o := range tmp5.Obls {
 		switch o.Rule {
-		case "K2", "K2b", "K3", "O5-parents", "O5-parents-clean", "O5-sort", "D6", "G-base", "G-prefix", "G-cutset", "G-rooted":
+		case "K2", "K2b", "K2c", "K3", "O5-parents", "O5-parents-clean", "O5-sort", "D6", "G-base", "G-prefix", "G-cutset", "G-rooted":
 			o.Rule = "plan-" + o.Rule
 			r.Obls = append(r.Obls, o)
 			n5++
@@ -898,4 +900,169 @@ func checkRPMNames(c *Ctx, r *Report) {
 		})
 	}
 	r.Floor("F10-rpm", n, 1)
+}
+
+// checkBuffersReadOnce (O4-once): a bytes.Buffer that holds a finished part of
+// the package (an apk segment, a nested tarball) is drained by reading it. It
+// is therefore read by one consumer only on any path: a second reader - a
+// digest computed "afterwards" with io.Copy(hash, &buf), say - leaves nothing
+// for the concatenation that ships the part.
+func checkBuffersReadOnce(c *Ctx, r *Report) {
+	n := 0
+	for _, pk := range c.Packagers {
+		if pk.Format == "" {
+			continue
+		}
+		for _, fn := range sortedFuncs(c, c.Reach(pk.Package)) {
+			if c.funcPkgPath(fn) != pk.PkgPath {
+				continue
+			}
+			k := 0
+			forEachInstr(fn, func(in ssa.Instruction) {
+				al, ok := in.(*ssa.Alloc)
+				if !ok || types.TypeString(derefType(al.Type()), nil) != "bytes.Buffer" || al.Referrers() == nil {
+					return
+				}
+				var readers []ssa.Instruction
+				for _, ref := range *al.Referrers() {
+					switch x := ref.(type) {
+					case *ssa.MakeInterface:
+						// handed on as an io.Reader (io.Copy source, MultiReader element ...)
+						if x.Referrers() == nil {
+							continue
+						}
+						for _, r2 := range *x.Referrers() {
+							if ci, isCall := r2.(ssa.CallInstruction); isCall && passedAsReader(ci, x) {
+								readers = append(readers, r2)
+							}
+							// an element of a []io.Reader literal (variadic readers)
+							if st, isSt := r2.(*ssa.Store); isSt && st.Val == ssa.Value(x) {
+								if ia, isIA := st.Addr.(*ssa.IndexAddr); isIA && strings.Contains(ia.X.Type().String(), "io.Reader") {
+									readers = append(readers, r2)
+								}
+							}
+						}
+					case ssa.CallInstruction:
+						if o := calleeObj(x); o != nil && callReceiver(x) == ssa.Value(al) {
+							switch o.Name() {
+							case "Read", "ReadByte", "ReadBytes", "ReadRune", "ReadString", "Next", "WriteTo":
+								readers = append(readers, ref)
+							}
+							continue
+						}
+						// a module function that is handed the buffer and reads it
+						if sc := x.Common().StaticCallee(); sc != nil && c.isModuleFunc(sc) && len(sc.Blocks) > 0 {
+							for i, a := range x.Common().Args {
+								if a == ssa.Value(al) && i < len(sc.Params) && paramIsRead(c, sc, sc.Params[i], 2) {
+									readers = append(readers, ref)
+								}
+							}
+						}
+					}
+				}
+				if len(readers) == 0 {
+					return
+				}
+				n++
+				k++
+				var first, second ssa.Instruction
+				for _, a := range readers {
+					for _, b := range readers {
+						if a == b {
+							continue
+						}
+						if a.Block() == b.Block() && instrIndex(a) < instrIndex(b) || a.Block() != b.Block() && blockReaches(a.Block(), b.Block()) {
+							first, second = a, b
+						}
+					}
+				}
+				construct := fmt.Sprintf("%s: buffer#%d of %s is read by one consumer", pk.Format, k, c.funcKey(fn))
+				if second != nil {
+					r.Fail("O4-once", construct, c.instrPos(second), fmt.Sprintf("the buffer is already drained by the reader at %s when it is read here: the part it holds would be missing from (or empty in) the package", c.instrPos(first)))
+				} else {
+					r.Pass("O4-once", construct, c.instrPos(readers[0]), fmt.Sprintf("%d reader(s), no two on one path", len(readers)))
+				}
+			})
+		}
+	}
+	r.Floor("O4-once", n, 3)
+}
+
+// passedAsReader: the interface value is an argument in a position whose
+// parameter type is io.Reader (or a variadic of it).
+func passedAsReader(ci ssa.CallInstruction, v ssa.Value) bool {
+	sig := ci.Common().Signature()
+	args := ci.Common().Args
+	off := 0
+	if sig.Recv() != nil && !ci.Common().IsInvoke() {
+		off = 1
+	}
+	for i, a := range args {
+		if a != v {
+			continue
+		}
+		pi := i - off
+		if pi < 0 || sig.Params().Len() == 0 {
+			continue
+		}
+		if pi >= sig.Params().Len() {
+			pi = sig.Params().Len() - 1
+		}
+		pt := sig.Params().At(pi).Type()
+		if sl, isSl := pt.(*types.Slice); isSl && sig.Variadic() && pi == sig.Params().Len()-1 {
+			pt = sl.Elem()
+		}
+		if pt.String() == "io.Reader" {
+			return true
+		}
+	}
+	// a variadic io.Reader list built into a slice literal
+	return false
+}
+
+// paramIsRead: the module function reads from the buffer / reader parameter.
+func paramIsRead(c *Ctx, fn *ssa.Function, p *ssa.Parameter, depth int) bool {
+	if p.Referrers() == nil {
+		return false
+	}
+	for _, ref := range *p.Referrers() {
+		switch x := ref.(type) {
+		case *ssa.MakeInterface:
+			if x.Referrers() == nil {
+				continue
+			}
+			for _, r2 := range *x.Referrers() {
+				if ci, isCall := r2.(ssa.CallInstruction); isCall && passedAsReader(ci, x) {
+					return true
+				}
+				// stored into a []io.Reader literal (io.MultiReader(a, b, c))
+				if st, isSt := r2.(*ssa.Store); isSt {
+					if ia, isIA := st.Addr.(*ssa.IndexAddr); isIA {
+						if strings.Contains(ia.X.Type().String(), "io.Reader") {
+							return true
+						}
+					}
+				}
+			}
+		case ssa.CallInstruction:
+			if o := calleeObj(x); o != nil && callReceiver(x) == ssa.Value(p) {
+				switch o.Name() {
+				case "Read", "ReadByte", "ReadBytes", "ReadRune", "ReadString", "Next", "WriteTo":
+					return true
+				}
+				continue
+			}
+			if passedAsReader(x, p) {
+				return true
+			}
+			if sc := x.Common().StaticCallee(); sc != nil && c.isModuleFunc(sc) && len(sc.Blocks) > 0 && depth > 0 {
+				for i, a := range x.Common().Args {
+					if a == ssa.Value(p) && i < len(sc.Params) && paramIsRead(c, sc, sc.Params[i], depth-1) {
+						return true
+					}
+				}
+			}
+		}
+	}
+	return false
 }
